@@ -27,7 +27,7 @@ class Line:
 
     def text(self):
         body = render_terms(self.terms) if self.op == '+=' else self.rhs
-        return f'{self.target} {self.op} {body} | {self.loops} | {" and ".join(self.guards)}'
+        return f'{self.target} {self.op} {body} | {self.loops} | {" and ".join(f"({g})" if " or " in g or " if " in g else g for g in self.guards)}'
 
     def lineno(self):
         return self.stmts[0].lineno if self.stmts else 0
@@ -90,17 +90,36 @@ class Signature:
         return [l.text() for l in self.select(pattern)]
 
 
+def _canon_guard(text):
+    """`target op body | loops | guards` with the guard part replaced by its negation normal form (De Morgan, double negation,
+    order of conjuncts do not matter)"""
+    import ast as _ast
+    from .norm import nnf
+    head, sep, g = text.rpartition(' | ')
+    if not sep or not g.strip():
+        return text
+    try:
+        nf = nnf(_ast.parse(g, mode='eval').body, lambda n: _ast.unparse(n))
+    except SyntaxError:
+        return text
+    return head + sep + repr(nf)
+
+
 def compare(found_lines, expected_texts, alternatives=None):
-    """Multiset comparison. `alternatives` maps an expected text to a list of other accepted texts.
-    Returns (missing, extra)."""
+    """Multiset comparison (guards compared in negation normal form). `alternatives` maps an expected text to a list of other
+    accepted texts.  Returns (missing, extra) in the original spelling."""
     found = [l.text() for l in found_lines]
     rest = list(found)
+    rest_c = [_canon_guard(x) for x in rest]
     missing = []
     for e in expected_texts:
         cands = [e] + list((alternatives or {}).get(e, []))
         for c in cands:
-            if c in rest:
-                rest.remove(c)
+            cc = _canon_guard(c)
+            if cc in rest_c:
+                i = rest_c.index(cc)
+                rest.pop(i)
+                rest_c.pop(i)
                 break
         else:
             missing.append(e)
